@@ -25,7 +25,11 @@ RULE = ("(a) self-replacement P→P on planted structures (all cell kinds, poses
         "cases of every stream a NON-default tolerance (0.1, 0.2, 0.01) with the planted copies distorted by up to 0.6·atol "
         "(0.35·atol for multi-atom A→B→A), for 0.01 also beyond the tolerance; every independent search of the oracles "
         "uses the case's own tolerance, and the number of replaced sites must equal what a plain search with that "
-        "tolerance reports.")
+        "tolerance reports. replace_fraction < 1: in a quarter of the (a) cases, in a stream of self-replacements "
+        "with replace_all=True (2–3 differently posed copies, fraction 1 / 0.75 / 0.5 / 0.34; required: atom count and "
+        "(element, position mod lattice) multiset unchanged within 4·atol), and in (b): A→B on a random part of the sites, "
+        "B→A on all B sites must restore the multiset. (b) also with B = A + one element substituted + one atom of "
+        "unchanged element re-positioned by 0.02–0.09 Å (tight tolerance: more than 1.3·atol; and atol 0.1 / 0.2).")
 
 MOF = os.path.join(core.REPO, "")
 
@@ -77,6 +81,8 @@ def self_case(rng, tier):
     base = G.make_case(rng, tier, hints=(None, None, None), rp_kind="keep_all+far", replace_all=False)   # structure + search pattern; Rp unused
     sj = G.add_terms(rng, base["s"], density=rng.choice([0.5, 1.0, 1.5]))
     case = {"op": "c08-self", "s": sj, "p": base["p"], "atol": base["atol"], "seed": base["seed"], "info": base["info"]}
+    if rng.random() < 0.25:
+        case["fraction"] = rng.choice([0.5, 0.34, 0.75, 0.6])      # only a random part of the matches is "replaced"
     if rng.random() < 0.4:
         # the pattern as a user would cut it out of the structure (`structure[[i, j, …]]` keeps the parent's whole type
         # table, so the pattern carries type entries it does not use), and the replacement applied twice in a row
@@ -162,7 +168,36 @@ def ring_case(rng, tier):
 
 
 def run_self(case):
-    return findlib.run_replace(case["s"], case["p"], case["p"], atol=case["atol"], seed=case["seed"])
+    return findlib.run_replace(case["s"], case["p"], case["p"], atol=case["atol"], seed=case["seed"],
+                               fraction=case.get("fraction", 1.0), replace_all=case.get("replace_all", False))
+
+
+def self_all_case(rng, tier):
+    """self-replacement with replace_all=True (every matched atom is removed and the pattern's atoms are inserted in
+    its place), on all or on a random part of the matches: ≥ 2 copies in different poses, multi-atom patterns"""
+    names = [p for p in findlib.PATTERNS if len(findlib.PATTERNS[p][0]) >= 2]
+    base = G.make_case(rng, tier, hints=(None, None, None), pname=rng.choice(names), rp_kind="keep_all+far",
+                       replace_all=False, atol=rng.choice([0.05, 0.02]), distort=False, exact=False, ncopies=rng.randint(2, 3))
+    return {"op": "c08-self-all", "s": base["s"], "p": base["p"], "atol": base["atol"], "seed": base["seed"],
+            "info": base["info"], "replace_all": True, "fraction": rng.choice([1.0, 0.5, 0.5, 0.34, 0.75])}
+
+
+def oracle_self_all(case, out):
+    """replace_all=True: atoms are re-created, so only what the property states for ANY self-replacement is required:
+    same atom count and the same multiset of (element, position mod lattice) within the bound proportional to atol"""
+    if "ok" not in out:
+        return "self-replacement (replace_all) raised %s" % out.get("err")
+    sj, r = case["s"], out["ok"]
+    if len(r["atoms"]) != len(sj["atoms"]):
+        return "atom count changed: %d -> %d" % (len(sj["atoms"]), len(r["atoms"]))
+    cell = C5.cell_of(sj)
+    scale = float(np.abs(C5.positions(sj)).max()) + float(np.abs(cell).sum())
+    tol = 4 * (case["atol"] + 1e-5 * scale) + 1e-6
+    d = C5.multiset_equal_mod_lattice(multiset(sj), multiset(r), cell, tol)
+    if d:
+        return ("self-replacement with replace_all=True, replace_fraction=%s changes the (element, position mod lattice) "
+                "multiset (tol %.3g): %s" % (case.get("fraction", 1.0), tol, d))
+    return None
 
 
 # ------------------------------------------------------------------ (b) A → B → A
@@ -173,16 +208,37 @@ def multiset(j):
 
 
 def site_case(rng, tier):
-    single = rng.random() < 0.5
-    pname = "single" if single else rng.choice([p for p in findlib.PATTERNS if p != "single"])
+    single = rng.random() < 0.4
+    variant = "plain"
+    kw = {}
+    if single:
+        pname = "single"
+    else:
+        variant = rng.choice(["plain", "fraction", "fraction", "nudge", "nudge"])
+        names = [p for p in findlib.PATTERNS if p != "single" and (variant != "nudge" or len(findlib.PATTERNS[p][0]) >= 3)]
+        pname = rng.choice(names)
+    rp_kind = "subst"
+    if variant == "fraction":
+        kw = dict(ncopies=rng.randint(2, 3))
+    if variant == "nudge":
+        # B = A with one element substituted AND one atom of unchanged element re-positioned; undistorted copies. Either a
+        # tight tolerance (the re-positioning exceeds it: B is geometrically a different pattern than A) or a wide one
+        atol = rng.choice([0.02, 0.05, 0.05, 0.1, 0.2])
+        lo = max(0.02, 1.3 * atol) if atol <= 0.05 else 0.02
+        kw = dict(atol=atol, distort=False, exact=False, nudge=(lo, 0.09))
+        rp_kind = "subst+nudge"
     # multi-atom sites: moderate distortion only, so that the tolerance stays "large enough to match" in BOTH directions
-    base = G.make_case(rng, tier, hints=(None, None, None), pname=pname, rp_kind="subst", replace_all=False, fmax=0.35)
-    return {"op": "c08-site", "s": base["s"], "a": base["p"], "b": base["r"], "atol": base["atol"], "seed": base["seed"],
-            "single": single, "info": base["info"]}
+    base = G.make_case(rng, tier, hints=(None, None, None), pname=pname, rp_kind=rp_kind, replace_all=False, fmax=0.35, **kw)
+    case = {"op": "c08-site", "s": base["s"], "a": base["p"], "b": base["r"], "atol": base["atol"], "seed": base["seed"],
+            "single": single, "info": base["info"], "variant": variant}
+    if variant == "fraction" or (single and rng.random() < 0.3):
+        case["fraction"] = rng.choice([0.5, 0.5, 0.34, 0.75, 0.6])   # A→B on a random part of the sites, B→A on all B sites
+    return case
 
 
 def run_site(case):
-    o1 = findlib.run_replace(case["s"], case["a"], case["b"], atol=case["atol"], seed=case["seed"])
+    o1 = findlib.run_replace(case["s"], case["a"], case["b"], atol=case["atol"], seed=case["seed"],
+                             fraction=case.get("fraction", 1.0))
     if "ok" not in o1:
         return o1, None
     o2 = findlib.run_replace(o1["ok"], case["b"], case["a"], atol=case["atol"], seed=case["seed"] + 1)
@@ -202,11 +258,14 @@ def oracle_site(case, o1, o2):
     cell = C5.cell_of(sj)
     # every site that a plain search with the same tolerance reports was substituted
     lo, hi = C5.occurrence_bracket({"s": sj, "p": case["a"], "atol": case["atol"], "seed": case["seed"]})
-    if not (len(lo) <= o1["n"] <= len(hi)):
-        return ("a search reports %d site(s) with 0.7·atol and %d with 1.4·atol (atol=%g); A→B (same atol) replaced %d"
-                % (len(lo), len(hi), case["atol"], o1["n"]))
+    f = case.get("fraction", 1.0)
+    want = (lambda m: m) if f >= 1.0 else (lambda m: round(f * m))
+    if not (want(len(lo)) <= o1["n"] <= want(len(hi))):
+        return ("a search reports %d site(s) with 0.7·atol and %d with 1.4·atol (atol=%g); A→B (same atol, "
+                "replace_fraction=%s) replaced %d" % (len(lo), len(hi), case["atol"], f, o1["n"]))
     if o2["n"] != o1["n"]:
-        if not case["single"] and o2["n"] < o1["n"] and (case["info"].get("distorted", "none") != "none" or len(lo) < o1["n"]):
+        clear = all(tuple(sorted(int(i) for i in m["idx"])) in lo for m in (o1.get("used") or []))
+        if not case["single"] and o2["n"] < o1["n"] and (case["info"].get("distorted", "none") != "none" or not clear):
             # purposely distorted multi-atom copies, or a replaced site that is not a CLEAR occurrence (not reported with
             # 0.7·atol, e.g. a near-miss decoy that just passes): after A→B the substituted atom sits at its ideal place, the others
             # do not; the tolerance is then not "large enough to match" on the way back — outside the quantifier
@@ -344,6 +403,21 @@ def do_self(ctx, case, ops):
         ops.append((case, findlib.replace_op(case["s"], case["p"], case["p"], out["used"]), out))
 
 
+def do_self_all(ctx, case, ops):
+    out = run_self(case)
+    bad = oracle_self_all(case, out)
+    used = out.get("used") or []
+    ctx.case(case, nontrivial=bool(used))
+    ctx.count("self-all")
+    ctx.count("self-all:fraction:%s" % case["fraction"])
+    ctx.count("self-all:matches:%d" % min(len(used), 4))
+    if bad:
+        ctx.fail(bad, case, observed={"err": out.get("err"), "n": out.get("n")},
+                 required="self-replacement keeps the (element, position) multiset", tags=["c08", "self-all"])
+    if ops is not None and out.get("used") is not None:
+        ops.append((case, findlib.replace_op(case["s"], case["p"], case["p"], out["used"], replace_all=True), out))
+
+
 def do_site(ctx, case, ops):
     o1, o2 = run_site(case)
     bad = oracle_site(case, o1, o2)
@@ -352,6 +426,8 @@ def do_site(ctx, case, ops):
         bad = None
     ctx.case(case, nontrivial=("ok" in o1 and o1.get("n", 0) > 0))
     ctx.count("site:single" if case["single"] else "site:multi")
+    ctx.count("site:variant:%s" % case.get("variant", "plain"))
+    ctx.count("site:fraction:%s" % case.get("fraction", 1.0))
     ctx.count("site:cell:" + case["info"]["cell"])
     ctx.count("atol:%g" % case["atol"])
     ctx.count("distorted:" + case["info"].get("distorted", "none"))
@@ -396,6 +472,8 @@ def run(ctx, oracle_only=False):
         do_self(ctx, self_case(rng, ctx.tier), ops)
     for _ in range(ctx.n(80, 1200)):
         do_self(ctx, ring_case(rng, ctx.tier), ops)
+    for _ in range(ctx.n(60, 800)):
+        do_self_all(ctx, self_all_case(rng, ctx.tier), ops)
     for _ in range(ctx.n(90, 1500)):
         do_site(ctx, site_case(rng, ctx.tier), ops)
     for _ in range(ctx.n(60, 1000)):
@@ -425,6 +503,10 @@ def search(ctx):
             do_self(ctx, ring_case(rng, "thorough"), None)
             if ctx.failures:
                 return
+        for _ in range(500):
+            do_self_all(ctx, self_all_case(rng, "thorough"), None)
+            if ctx.failures:
+                return
         for _ in range(800):
             do_site(ctx, site_case(rng, "thorough"), None)
             do_gone(ctx, gone_case(rng, "thorough"), None)
@@ -440,6 +522,8 @@ def replay(ctx, rec):
     op = case.get("op")
     if op == "c08-self":
         return oracle_self(case["s"], run_self(case)) is None
+    if op == "c08-self-all":
+        return oracle_self_all(case, run_self(case)) is None
     if op == "c08-site":
         o1, o2 = run_site(case)
         return oracle_site(case, o1, o2) in (None, "skip")
